@@ -80,6 +80,39 @@ theorem ref_window_boundary (now : Int) (d o : Nat) (hd : d ≠ 0) :
 theorem zero_days_switches_off (now tip : Int) (o : Nat) : refIsRecent now tip 0 o = false ∧ commitIsRecent now tip 0 o = false := by
   simp [refIsRecent, commitIsRecent]
 
+/-- the recent-commits window belongs to the ref: a previous version replaced by a commit inside the
+    window of ANY retained ref (HEAD or recent) is retained, whatever the tips of the other refs are —
+    in particular when HEAD is much younger and its own window does not reach back that far -/
+theorem recent_commit_window_is_per_ref (now : Int) (refsDays commitsDays offsetDays : Nat) (refs : List RefT)
+    (r : RefT) (c : Int × List Oid) (o : Oid)
+    (hr : r ∈ refs) (hrec : r.isHead = true ∨ refIsRecent now r.tip refsDays offsetDays = true)
+    (hc : c ∈ r.commits) (hwin : commitIsRecent r.tip c.1 commitsDays offsetDays = true) (ho : o ∈ c.2) :
+    o ∈ retainedRecent now refsDays commitsDays offsetDays refs := by
+  unfold retainedRecent
+  simp only [List.mem_flatMap, List.mem_filter]
+  refine ⟨r, ⟨hr, ?_⟩, c, ⟨hc, hwin⟩, ho⟩
+  rcases hrec with h | h <;> simp [h]
+
+/-- … and nothing else comes from these tasks: every retained id is a previous version replaced inside
+    the window of a retained ref -/
+theorem recent_retained_only_from_windows (now : Int) (refsDays commitsDays offsetDays : Nat) (refs : List RefT) (o : Oid)
+    (h : o ∈ retainedRecent now refsDays commitsDays offsetDays refs) :
+    ∃ r ∈ refs, (r.isHead = true ∨ refIsRecent now r.tip refsDays offsetDays = true) ∧
+      ∃ c ∈ r.commits, commitIsRecent r.tip c.1 commitsDays offsetDays = true ∧ o ∈ c.2 := by
+  unfold retainedRecent at h
+  simp only [List.mem_flatMap, List.mem_filter] at h
+  obtain ⟨r, ⟨hr, hrec⟩, c, ⟨hc, hwin⟩, ho⟩ := h
+  refine ⟨r, hr, ?_, c, hc, hwin, ho⟩
+  cases hh : r.isHead
+  · right; simpa [hh] using hrec
+  · left; rfl
+
+/-- non-vacuity (the shape of seeded change C05/3): HEAD's tip is 1 hour old, a feature ref's tip 8 days;
+    with 3 commit-days the version replaced 10 days ago on `feature` is kept although HEAD's own window
+    (3 days before HEAD's tip) does not reach it -/
+example : retainedRecent 1000000 7 3 0
+    [⟨true, 1000000 - 3600, []⟩, ⟨false, 1000000 - 5 * 86400, [(1000000 - 7 * 86400, [42])]⟩] = [42] := by decide
+
 /-! ### the `git log -p` scanner (unpushed, stashed and recent-commit retention) -/
 section logscan
 open LogScan Lfs
